@@ -158,6 +158,18 @@ CLAIMS = {
         design_ref="DESIGN.md section 3, C19",
         technique="static analysis: lock-region re-entrancy and lockset rules over the resolved call graph + term evaluation of method effects",
     ),
+    "C20": dict(
+        text=("Static rules over the zone-data loading code: (R20.1) exception effects - for from_stream, get_ids, for_id, version_id and the DateTimeZoneCache constructor/lookup, the set of "
+              "exception classes that can propagate out (explicit raises, resolved callees incl. handler tables, callbacks and virtual dispatch, implicit operator/property calls, modelled raising "
+              "library operations: subscripts, Enum(value), int(str), bytes.decode, struct.unpack, division, str.format ...; minus enclosing try/except, subclass-aware; least fixpoint over the call "
+              "graph) is {InvalidPyodaDataError} plus symbols excluded with a reason (None arguments, documented lookup errors for unknown ids); (R20.1b) the source never returns None where the cache "
+              "would raise its source-contract error; (R20.2) progress - every loop in the decoding region either iterates over an in-memory container or, on every iteration path, consumes input or "
+              "leaves (must-consume summaries of the reader primitives, raw-read-then-emptiness-exit idiom, look-ahead byte), so trip counts are bounded by the bytes present; (R20.3) allocation - the "
+              "caller's stream is read only in constant-size steps, data-sized reads happen on in-memory field copies, no allocation is sized by a decoded count. "
+              "Wall-clock time and the behaviour of a successfully loaded but altered database are not decided."),
+        design_ref="DESIGN.md section 3, C20",
+        technique="static analysis: interprocedural exception-effect (escape set) analysis over the resolved call graph with try/except subtraction, must-consume progress analysis of loops, stream-use (who-may-read-sized) rule",
+    ),
 }
 
 NA = {
